@@ -8,6 +8,11 @@
 //     separated by constants, optional constant prefix/suffix, both %x and %{x} notation) x
 //     identifier triples x {get,set,list}: StringReplacer::parse/get/match used the way
 //     MqttHandler does.
+//  d  delivery: the same requests with LF and CRLF line ends, handed to RequestImpl::add in pieces the way
+//     Connection::run does (one add() per recv() of <=255 bytes): whole, cut between CR and LF of every
+//     line end, (small sub-universe) every cut into <=3 pieces and byte by byte, and long lines cut by the
+//     255 byte receive buffer.  The arguments must not depend on line end style or segmentation and the
+//     request must be reported complete by exactly the piece that carries the terminating LF.
 // References (RefSplit = the encoder itself, RefPercent, the template semantics) are written from
 // the property statement.
 #include <algorithm>
@@ -21,6 +26,7 @@ using std::string;
 using std::vector;
 
 static vp::Result R;
+static bool g_delivery = true;  // --delivery 0 switches part d off (cost measurements only)
 
 static vector<string> stringsOver(const string& alpha, size_t maxLen, bool withEmpty) {
   vector<string> out, cur = {""};
@@ -119,10 +125,12 @@ static void forEachWire(const vector<string>& args, size_t maxBlanks, const std:
     if (k == ei.size()) break;
   }
 }
+static void standardDeliveries(bool http, const vector<string>& lines, const vector<string>& want, bool lfWholeDone);
 static void runSplitVector(const vector<string>& args, size_t maxBlanks) {
   forEachWire(args, maxBlanks, [&](const string& wire, const string& key) {
     R.evaluations++; R.tracesValidated++;
     string cls = checkSplit(args, wire, false);
+    if (g_delivery) standardDeliveries(false, {wire.substr(0, wire.size() - 1)}, args, true);
     if (!cls.empty()) {
       string cs = "k=split;n=" + std::to_string(args.size());
       for (size_t i = 0; i < args.size(); i++) cs += ";a" + std::to_string(i) + "=" + toHex(args[i]);
@@ -130,6 +138,94 @@ static void runSplitVector(const vector<string>& args, size_t maxBlanks) {
       R.violation("C18/split/argument-changed/" + cls, "client wrote " + showVec(args) + " as <" + esc(wire) + ">", cs);
     }
   });
+}
+
+// ================================ (d) delivery: line ends and segmentation ==============================
+// The byte stream of a connection reaches RequestImpl::add in the pieces recv() returns (network.cpp:
+// char data[256]; recv(data, 255); add(data)).  What the client encoded must not depend on the cuts.
+static vector<string> cutStream(const string& stream, const vector<size_t>& cuts) {
+  vector<string> out;
+  size_t from = 0;
+  for (size_t c : cuts) { if (c > from && c < stream.size()) { out.push_back(stream.substr(from, c - from)); from = c; } }
+  out.push_back(stream.substr(from));
+  return out;
+}
+static vector<size_t> bufferCuts(size_t len, size_t buf) { vector<size_t> c; for (size_t p = buf; p < len; p += buf) c.push_back(p); return c; }
+struct Delivered { bool complete = false; size_t at = 0; size_t pieces = 0; vector<string> args; };
+static Delivered deliver(bool http, const vector<string>& pcs) {
+  Delivered d;
+  d.pieces = pcs.size();
+  RequestImpl req(http);
+  for (size_t i = 0; i < pcs.size(); i++) {
+    R.transitions++;
+    if (req.add(pcs[i].c_str())) { d.complete = true; d.at = i; break; }
+  }
+  if (d.complete) req.split(&d.args);
+  return d;
+}
+static string cutClass(const string& stream, const vector<size_t>& cuts, const char* family) {
+  if (cuts.empty()) return "whole";
+  if (family) return family;
+  for (size_t c : cuts) if (c > 0 && c < stream.size() && stream[c - 1] == '\r' && stream[c] == '\n') return "cut-cr-lf";
+  return "cut-other";
+}
+// judges one delivery; want = the arguments the client encoded.  returns "" or "<rule>"
+static string judgeDelivery(bool http, const string& stream, const vector<size_t>& cuts, const vector<string>& want, bool log) {
+  vector<string> pcs = cutStream(stream, cuts);
+  Delivered d = deliver(http, pcs);
+  if (log) {
+    printf("stream           <%s>\npieces          ", esc(stream).c_str());
+    for (auto& p : pcs) printf(" <%s>", esc(p).c_str());
+    printf("\nexpected         %s, complete with piece %zu of %zu\n", showVec(want).c_str(), pcs.size(), pcs.size());
+    if (d.complete) printf("implementation   %s, complete with piece %zu of %zu\n", showVec(d.args).c_str(), d.at + 1, pcs.size());
+    else printf("implementation   request never reported complete\n");
+  }
+  if (!d.complete) return "request-incomplete";
+  if (d.at + 1 != pcs.size()) return "completed-early";
+  if (d.args != want) return "argument-changed";
+  return "";
+}
+static string cutsStr(const vector<size_t>& cuts) { string o; for (size_t c : cuts) o += (o.empty() ? "" : ",") + std::to_string(c); return o; }
+static void deliveryCase(bool http, const string& stream, const vector<size_t>& cuts, const vector<string>& want, const char* eol, const char* family) {
+  R.evaluations++; R.tracesValidated++;
+  string rule = judgeDelivery(http, stream, cuts, want, false);
+  if (rule.empty()) return;
+  string cs = string("k=dlv;h=") + (http ? "1" : "0") + ";s=" + toHex(stream) + ";cuts=" + cutsStr(cuts) + ";n=" + std::to_string(want.size());
+  for (size_t i = 0; i < want.size(); i++) cs += ";a" + std::to_string(i) + "=" + toHex(want[i]);
+  R.violation(string("C18/delivery/") + rule + "/" + (http ? "http" : "tcp") + "/" + eol + "-" + cutClass(stream, cuts, family),
+              "stream <" + esc(stream) + "> cut at [" + cutsStr(cuts) + "], client encoded " + showVec(want), cs);
+}
+// the delivery variants applied to EVERY request of the universes a and b: whole with the other line end
+// style, and cut between CR and LF of each line end
+static void standardDeliveries(bool http, const vector<string>& lines, const vector<string>& want, bool lfWholeDone) {
+  for (const char* eol : {"\n", "\r\n"}) {
+    string stream;
+    vector<size_t> ends;
+    for (auto& l : lines) { stream += l + eol; ends.push_back(stream.size()); }
+    bool crlf = eol[0] == '\r';
+    const char* en = crlf ? "crlf" : "lf";
+    if (!(lfWholeDone && !crlf)) deliveryCase(http, stream, {}, want, en, nullptr);
+    if (crlf) {
+      for (size_t e : ends) deliveryCase(http, stream, {e - 1}, want, en, nullptr);  // CR | LF
+      if (ends.size() > 1) { vector<size_t> all; for (size_t e : ends) all.push_back(e - 1); deliveryCase(http, stream, all, want, en, nullptr); }
+    }
+  }
+}
+// the sub-universe: every cut into <=3 pieces, and byte by byte, both line end styles
+static void allDeliveries(bool http, const vector<string>& lines, const vector<string>& want) {
+  for (const char* eol : {"\n", "\r\n"}) {
+    string stream;
+    for (auto& l : lines) stream += l + eol;
+    const char* en = eol[0] == '\r' ? "crlf" : "lf";
+    size_t n = stream.size();
+    for (size_t i = 1; i < n; i++) {
+      deliveryCase(http, stream, {i}, want, en, nullptr);
+      for (size_t j = i + 1; j < n; j++) deliveryCase(http, stream, {i, j}, want, en, nullptr);
+    }
+    vector<size_t> each;
+    for (size_t i = 1; i < n; i++) each.push_back(i);
+    deliveryCase(http, stream, each, want, en, "bytewise");
+  }
 }
 
 // ================================ (b) HTTP ===================================================
@@ -238,8 +334,22 @@ static const char* SEGS[] = {"", ".", "..", "%2e", "%2E%2e", ".%2e", "%252e%252e
 static const size_t NSEGS = sizeof(SEGS) / sizeof(SEGS[0]);
 static const char* QUERIES[] = {"", "?q=%41%2e&r=%2541"};
 
+// the arguments an HTTP request line encodes (nullptr semantics: empty vector = not judged, malformed escape)
+static vector<string> httpWant(const string& uri) {
+  bool malformed;
+  string ref = refPercent(uri, &malformed);
+  if (malformed || ref.find_first_of(" \n\r") != string::npos) return {};
+  size_t qp = ref.find('?');
+  vector<string> want = {"GET", qp == string::npos ? ref : ref.substr(0, qp)};
+  if (qp != string::npos && qp + 1 < ref.size()) want.push_back(ref.substr(qp + 1));
+  return want;
+}
 static void httpCase(const string& uri, const char* kind) {
   R.evaluations++; R.tracesValidated++;
+  if (g_delivery) {
+    vector<string> want = httpWant(uri);
+    if (!want.empty()) standardDeliveries(true, {"GET " + uri + " HTTP/1.1", "Host: x", ""}, want, false);
+  }
   string rule = checkHttp(uri, false);
   if (!rule.empty()) R.violation("C18/http/" + rule, string("GET <") + esc(uri) + ">", string("k=") + kind + ";uri=" + toHex(uri));
 }
@@ -319,6 +429,15 @@ static int replay(const string& cs) {
     size_t n = strtoul(m["n"].c_str(), nullptr, 10);
     for (size_t i = 0; i < n; i++) args.push_back(fromHex(m["a" + std::to_string(i)]));
     rule = checkSplit(args, fromHex(m["wire"]), true);
+  } else if (k == "dlv") {
+    vector<string> want;
+    size_t n = strtoul(m["n"].c_str(), nullptr, 10);
+    for (size_t i = 0; i < n; i++) want.push_back(fromHex(m["a" + std::to_string(i)]));
+    vector<size_t> cuts;
+    std::istringstream cs2(m["cuts"]);
+    string tok;
+    while (getline(cs2, tok, ',')) if (!tok.empty()) cuts.push_back(strtoul(tok.c_str(), nullptr, 10));
+    rule = judgeDelivery(m["h"] == "1", fromHex(m["s"]), cuts, want, true);
   } else if (k == "seg" || k == "raw") {
     rule = checkHttp(fromHex(m["uri"]), true);
     rmTree(httpWorld()->tmp);
@@ -340,6 +459,7 @@ int main(int argc, char** argv) {
   R.setDeadline(A);
   bool th = A.thorough();
   string only = A.get("only", "");
+  g_delivery = A.getInt("delivery", 1) != 0;
 
   // ---- (a) ---------------------------------------------------------------------------------------
   if (only.empty() || only == "a") {
@@ -393,6 +513,85 @@ int main(int argc, char** argv) {
     }
     R.sample("b: GET /a/x%2ejs must be decoded to /a/x.js (once: /%252e stays /%2e); GET /%2e%2e/x.js decodes to /../x.js and must not be served from outside the html root");
     rmTree(httpWorld()->tmp);
+  }
+
+  // ---- (d) sub-universe with every segmentation, and the 255 byte receive buffer ----------------------
+  if (g_delivery && (only.empty() || only == "d")) {
+    uint64_t idx = 0;
+    // TCP: <=2 arguments of <=2 characters (thorough <=3 of <=2), every encoding, 1..2 blanks, every cut
+    {
+      vector<string> dom = stringsOver("ab \"'", 2, true);
+      size_t maxArgs = th ? 3 : 2;
+      vector<string> v;
+      std::function<void()> rec = [&]() {
+        if (R.expired()) return;
+        if (!v.empty() && (idx++ % A.nparts) == static_cast<uint64_t>(A.part)) {
+          R.distinct("d|" + showVec(v));
+          forEachWire(v, th && v.size() < 3 ? 2 : 1, [&](const string& wire, const string&) { allDeliveries(false, {wire.substr(0, wire.size() - 1)}, v); });
+        }
+        if (v.size() >= maxArgs) return;
+        for (auto& x : dom) { v.push_back(x); rec(); v.pop_back(); }
+      };
+      rec();
+    }
+    // HTTP: URIs of <=1 segment (thorough <=2) with and without query, with and without a header line
+    {
+      size_t maxSeg = th ? 2 : 1;
+      vector<size_t> segs;
+      std::function<void()> rec = [&]() {
+        if (R.expired()) return;
+        if ((idx++ % A.nparts) == static_cast<uint64_t>(A.part)) {
+          string uri = "/";
+          for (size_t i = 0; i < segs.size(); i++) uri += (i ? "/" : "") + string(SEGS[segs[i]]);
+          for (const char* q : QUERIES) {
+            vector<string> want = httpWant(uri + q);
+            if (want.empty()) continue;
+            R.distinct("dh|" + uri + q);
+            allDeliveries(true, {"GET " + uri + q + " HTTP/1.1", ""}, want);
+            if (th) allDeliveries(true, {"GET " + uri + q + " HTTP/1.1", "Host: x", ""}, want);
+          }
+        }
+        if (segs.size() >= maxSeg) return;
+        for (size_t x = 0; x < NSEGS; x++) { segs.push_back(x); rec(); segs.pop_back(); }
+      };
+      rec();
+    }
+    // the receive buffer: lines / header blocks whose length puts every byte of the line end at a 255 byte
+    // boundary (first, second and third buffer), delivered in 255 byte pieces
+    for (size_t len = 240; len <= 780 && !R.expired(); len++) {
+      if (!((len >= 248 && len <= 262) || (len >= 503 && len <= 517) || (len >= 758 && len <= 772))) continue;
+      if ((idx++ % A.nparts) != static_cast<uint64_t>(A.part)) continue;
+      for (const char* eol : {"\n", "\r\n"}) {
+        const char* en = eol[0] == '\r' ? "crlf" : "lf";
+        // TCP: read -c main aaaa...  with a plain and a quoted last argument
+        for (int quoted = 0; quoted < 2; quoted++) {
+          string head = "write -c main setp ";
+          size_t fill = len - head.size() - (quoted ? 2 : 0);
+          string arg = quoted ? string(fill - 4, 'a') + " b c" : string(fill, 'a');
+          string line = head + (quoted ? "\"" + arg + "\"" : arg);
+          string stream = line + eol;
+          R.distinct("buf|" + std::to_string(len) + en + std::to_string(quoted));
+          deliveryCase(false, stream, bufferCuts(stream.size(), 255), {"write", "-c", "main", "setp", arg}, en, "buf255");
+        }
+        // HTTP: GET /aaaa...?q=1 with header
+        {
+          string tail = string(" HTTP/1.1") + eol + "Host: x" + eol + eol;
+          string uri = "/" + string(len - 4 - 1 - 4, 'a') + "?q=1";
+          string stream = "GET " + uri + tail;
+          deliveryCase(true, stream, bufferCuts(stream.size(), 255), {"GET", uri.substr(0, uri.size() - 4), "q=1"}, en, "buf255");
+          // and with the end of the header block (not of the request line) at the boundary
+          string uri2 = "/x?q=1";
+          string hdr = "X-Fill: " + string(len > 60 ? len - 60 : 1, 'a');
+          string stream2 = "GET " + uri2 + " HTTP/1.1" + eol + hdr + eol + eol;
+          for (size_t pad = 0; pad < 4; pad++) {
+            string st = "GET " + uri2 + " HTTP/1.1" + eol + hdr + string(pad, 'b') + eol + eol;
+            if (st.size() % 255 > 4 && st.size() % 255 < 251) continue;  // only blocks ending near a boundary
+            deliveryCase(true, st, bufferCuts(st.size(), 255), {"GET", "/x", "q=1"}, en, "buf255");
+          }
+        }
+      }
+    }
+    R.sample("d: <read -c \"a b\"\\r\\n> handed to add() as <read -c \"a b\"\\r> + <\\n>, byte by byte, in every cut into <=3 pieces and in 255 byte pieces must give [read,-c,a b] with the last piece");
   }
 
   // ---- (c) ---------------------------------------------------------------------------------------
